@@ -65,6 +65,12 @@ type File struct {
 	MainMethod bool
 	// OneLineMain: `func main() { mainBody() }` on one line; the usual body lives in mainBody
 	OneLineMain bool
+	// MainSkeleton: the entry file holds, before func main, a raw string with the text of a main
+	// function (a scaffolding template): lines that read `func main() {` but are not the declaration
+	MainSkeleton bool
+	// InitK > 0: the file (one that carries the helpers) has a func init whose statement changes
+	// between the revisions (code that runs before main only)
+	InitK int
 }
 
 // Gen carries generator state.
@@ -286,6 +292,23 @@ func (f *File) Render(old bool) string {
 		}
 		w.line(1, "return total")
 		w.line(0, "}")
+		w.line(0, "")
+	}
+	if f.InitK > 0 && f.Helpers {
+		k := f.InitK
+		if old {
+			k += 1000
+		}
+		w.line(0, "func init() {")
+		w.line(1, "Note(%d)", k)
+		w.line(0, "}")
+		w.line(0, "")
+	}
+	if f.IsMain && f.MainSkeleton {
+		w.line(0, "// skeleton is what the scaffolding command writes into a new project.")
+		w.line(0, "const skeleton = `package main")
+		w.raw("\nfunc main() {\n\tprintln(\"hello\")\n}\n`\n\n")
+		w.line(0, "var _ = skeleton")
 		w.line(0, "")
 	}
 	if f.IsMain && f.MainMethod {
